@@ -449,6 +449,92 @@ def class_set(cls: ast.ClassDef, name: str) -> Optional[Set[str]]:
     return None
 
 
+def check_stage_file_index(ctx, m) -> None:
+    import re as _re
+    rule = "C19.R9-stage-file-index"
+    ds = m.func("Dosini._discover_stages")
+    ctx.analysed(ds)
+    # what becomes the key of the stage -> path table
+    stores = [n for n in source.walk_own(ds) if isinstance(n, ast.Assign) and len(n.targets) == 1 and isinstance(n.targets[0], ast.Subscript)
+              and isinstance(n.targets[0].slice, ast.Name)]
+    ctx.require(bool(stores), "anchor missing: stage_to_paths[<index>] = path in _discover_stages")
+    for st in stores:
+        idx = st.targets[0].slice.id
+        vals = match.assigned_value(ds, idx)
+        ints = [v for v in vals if isinstance(v, ast.Call) and call_name(v) == "int" and v.args]
+        ctx.require(bool(ints), "cannot see how the stage index %s is computed" % idx)
+        for iv in ints:
+            arg = iv.args[0]
+            ok, why = False, "unrecognised form %s" % short(arg, 50)
+            if isinstance(arg, ast.Subscript) and isinstance(arg.slice, ast.Slice) and arg.slice.upper is None:
+                ok, why = True, "everything after the prefix"
+            elif isinstance(arg, ast.Call) and last_attr(arg) == "group" and arg.args and isinstance(arg.args[0], ast.Constant):
+                gno = arg.args[0].value
+                mobj = arg.func.value
+                pat_text = None
+                if isinstance(mobj, ast.Name):
+                    for mv in match.assigned_value(ds, mobj.id):
+                        if isinstance(mv, ast.Call) and last_attr(mv) in ("match", "fullmatch", "search"):
+                            recv = mv.func.value
+                            cands = []
+                            if isinstance(recv, ast.Name):
+                                cands = match.assigned_value(ds, recv.id) or [n_.value for n_ in m.tree.body if isinstance(n_, ast.Assign)
+                                                                             and any(isinstance(t, ast.Name) and t.id == recv.id for t in n_.targets)]
+                            elif isinstance(recv, ast.Attribute):
+                                cands = [n_.value for c_ in ast.walk(m.tree) if isinstance(c_, ast.ClassDef) for n_ in c_.body
+                                         if isinstance(n_, ast.Assign) and any(isinstance(t, ast.Name) and t.id == recv.attr for t in n_.targets)]
+                            for cv in cands:
+                                if isinstance(cv, ast.Call) and (call_name(cv) or "").endswith("compile") and cv.args and isinstance(cv.args[0], ast.Constant):
+                                    pat_text = cv.args[0].value
+                            if pat_text is None and (call_name(mv) or "").startswith("re.") and mv.args and isinstance(mv.args[0], ast.Constant):
+                                pat_text = mv.args[0].value
+                if pat_text is None:
+                    ok, why = False, "the pattern behind %s cannot be resolved" % short(arg, 40)
+                else:
+                    parsed = _re._parser.parse(pat_text)
+
+                    def find_group(seq, inside_repeat: bool):
+                        for op, av in seq:
+                            name = str(op)
+                            if name == "SUBPATTERN":
+                                g, _a, _b, sub = av
+                                if g == gno:
+                                    return sub, inside_repeat
+                                r = find_group(sub, inside_repeat)
+                                if r:
+                                    return r
+                            elif name in ("MAX_REPEAT", "MIN_REPEAT", "POSSESSIVE_REPEAT"):
+                                lo, hi, sub = av
+                                r = find_group(sub, True if (hi is None or hi > 1 or str(hi) == "MAXREPEAT") else inside_repeat)
+                                if r:
+                                    return r
+                            elif name == "BRANCH":
+                                for alt in av[1]:
+                                    r = find_group(alt, inside_repeat)
+                                    if r:
+                                        return r
+                        return None
+                    found = find_group(parsed, False)
+                    if not found:
+                        ok, why = False, "group %s does not exist in %r" % (gno, pat_text)
+                    else:
+                        sub, in_rep = found
+                        body = list(sub)
+                        whole = len(body) == 1 and str(body[0][0]) in ("MAX_REPEAT", "POSSESSIVE_REPEAT") and body[0][1][0] >= 1
+                        if in_rep:
+                            ok, why = False, ("in %r group %s is itself repeated: a repeated group keeps only its LAST repetition, so 'stage10' "
+                                              "yields index 0 and 'stage23' index 3" % (pat_text, gno))
+                        elif not whole:
+                            ok, why = False, "group %s of %r does not enclose a repetition of digits" % (gno, pat_text)
+                        else:
+                            ok, why = True, "group %s encloses the digit repetition" % gno
+            ctx.ob(rule, iv, ok,
+                   "the stage index is %s" % why if ok else
+                   "the stage index is not the whole number printed by the writer (%s): with more than ten stages several files map to the same "
+                   "index, the 'missing stage files' test stays silent, and the components of the later stages are lost or replace those of "
+                   "stage (index mod 10)" % why, construct="_discover_stages: %s = %s" % (idx, short(iv, 50)))
+
+
 def check_static_tables(ctx, m, cls) -> None:
     from vlib import state
     rule = "C19.R7-static-option-tables"
@@ -605,6 +691,8 @@ def run(ctx) -> None:
              "backend-specific names; a shared list would make the reader swallow those names as options without a branch)")
     ctx.rule("C19.R8-writer-keeps-text", "a writer converter changes the case of the text it writes only when that text is one of the boolean "
              "constants: anything else may be a %(Reference)s to a (case-sensitive) variable name")
+    ctx.rule("C19.R9-stage-file-index", "the reader takes the WHOLE decimal index out of a stage file name (the writer prints 'stage%d'): "
+             "a slice after the 'stage' prefix, or a regular-expression group that encloses the digit repetition")
     ctx.rule("C19.R4-reader-without-writer", "options parsed but never written are exactly the frozen list")
 
     m = ctx.repo.module(DOSINI)
@@ -620,6 +708,7 @@ def run(ctx) -> None:
            "known_flowir_options is no longer the union of _known_flowir and the translate map keys")
     all_known = set(known) | set(translate.keys())
     check_static_tables(ctx, m, cls)
+    check_stage_file_index(ctx, m)
     tmap = {k: v for k, v in translate.items() if v is not None}
 
     wt = extract_writer_table(ctx, m)
